@@ -74,6 +74,9 @@ def ns():
 # ---------------------------------------------------------------------------------------------
 # build
 # ---------------------------------------------------------------------------------------------
+REFS = []
+
+
 def is_str_leaf(node):
     return node[0] == 'lit' and node[2]
 
@@ -89,6 +92,8 @@ def build(node):
     """Build the real Pregex for `node` (receiver positions always get a Pregex)."""
     A = ns()
     k = node[0]
+    if k == 'ref':          # a live, shared object (C20 builds expressions out of previously built objects)
+        return REFS[node[1]]
     if k == 'lit':
         return A['Pregex'](node[1])
     if k == 'cls':
